@@ -3,6 +3,7 @@ CONSTANTS
   NCH = 384
   NB = 6
   Variant = "fixed"
+  NGRP = 3
 INVARIANT ExcludedInv
 INVARIANT NoLeakInv
 INVARIANT AllFilteredInv
